@@ -344,7 +344,7 @@ func testValues(attr, ty string) (string, string) {
 }
 
 func runC09(res *Result, tier string, seed int64, replay string) {
-	res.Rule = "EXHAUSTIVE matrix: every body component in a legal context × every attribute of its table × source level {mj-class, tag default, mj-all} with a typed non-default value, the same classes listed in both orders on two elements of one document, and every ordered pair of competing levels (winner value V1, loser value V2 ≠ V1); css-class (always accepted) supplied by the tag default, by mj-all and by both, for every component; plus seeded whole documents with heads. Oracle: the document is rewritten by the Spec — the Lean `winner` (driver `res`) is written as the element's own attribute for every (element, attribute) any source defines, the mj-attributes block is dropped — and the rendered <body> must be byte-identical to the body of the original. Non-trivial (informative) = cell whose attribute changes the body at all when set on the element; distinct by (component, attribute, level)"
+	res.Rule = "EXHAUSTIVE matrix: every body component in a legal context × every attribute of its table × source level {mj-class, tag default, mj-all} with a typed non-default value, the same classes listed in both orders on two elements of one document, three levels at once (the class value equal to the mj-all value, the tag default between them), and every ordered pair of competing levels (winner value V1, loser value V2 ≠ V1); css-class (always accepted) supplied by the tag default, by mj-all and by both, for every component; plus seeded whole documents with heads. Oracle: the document is rewritten by the Spec — the Lean `winner` (driver `res`) is written as the element's own attribute for every (element, attribute) any source defines, the mj-attributes block is dropped — and the rendered <body> must be byte-identical to the body of the original. Non-trivial (informative) = cell whose attribute changes the body at all when set on the element; distinct by (component, attribute, level)"
 	drv, err := startDriverPool(4)
 	if err != nil {
 		res.Disagree(Violation{Sig: "driver-missing", What: err.Error()})
@@ -722,6 +722,21 @@ func runC09(res *Result, tier string, seed int64, replay string) {
 				find(d).Set("mj-class", "m1")
 			}), find, attr, v1, "mj-class>mj-all", informative)
 			noop(withHead(func(at, d *Node) { at.Kids = append(at.Kids, mk("mj-all", attr, v2), mk(tag, attr, v1)) }), find, attr, v1, "tag-default>mj-all", informative)
+			// three levels at once: the class wins over the tag default and over mj-all — also when mj-all carries the very value
+			// of the class (a store that drops "redundant" entries must not fall through to the level in between), and with three
+			// different values
+			noop(withHead(func(at, d *Node) {
+				at.Kids = append(at.Kids, mk("mj-class", "name", "m1", attr, v1), mk(tag, attr, v2), mk("mj-all", attr, v1))
+				find(d).Set("mj-class", "m1")
+			}), find, attr, v1, "mj-class>tag-default>mj-all(class=mj-all)", informative)
+			noop(withHead(func(at, d *Node) {
+				at.Kids = append(at.Kids, mk("mj-all", attr, v2), mk(tag, attr, v2), mk("mj-class", "name", "m1", attr, v1))
+				find(d).Set("mj-class", "m1")
+			}), find, attr, v1, "mj-class>tag-default=mj-all", informative)
+			noop(withHead(func(at, d *Node) {
+				at.Kids = append(at.Kids, mk("mj-all", attr, v1), mk(tag, attr, v1), mk("mj-class", "name", "m1", attr, v2), mk("mj-class", "name", "m2", attr, v1))
+				find(d).Set("mj-class", "m1 m2")
+			}), find, attr, v1, "mj-class(later=tag-default=mj-all)", informative)
 			// the element's own value wins: the loser's value must be irrelevant (class and tag default reach only this element)
 			for _, lv := range []string{"mj-class", "tag-default"} {
 				if attr == "name" && lv == "mj-class" {
